@@ -14,6 +14,7 @@ import (
 	"io"
 	"os"
 	"os/exec"
+	"regexp"
 	"strings"
 	"sync"
 	"time"
@@ -206,6 +207,25 @@ func runFaultWorker(ctx *Ctx) error {
 }
 
 // ---- parent side --------------------------------------------------------------------------
+
+// fwFail records a failure, keeping at most 3 per signature (kind + detail with numbers and
+// addresses blanked) so that one frequent defect cannot crowd the others out of the report.
+var fwSigRe = regexp.MustCompile(`0x[0-9a-f]+\??|\d+`)
+var fwSigCount = map[string]int{}
+
+func fwFail(ctx *Ctx, f hx.Failure) {
+	d := f.Detail
+	if len(d) > 160 {
+		d = d[:160]
+	}
+	sig := f.Kind + "|" + f.Class + "|" + fwSigRe.ReplaceAllString(d, "#")
+	fwSigCount[sig]++
+	if fwSigCount[sig] > 3 {
+		ctx.Rep.Count("further failures like: " + sig)
+		return
+	}
+	ctx.Rep.Fail(f)
+}
 
 type fwProc struct {
 	cmd    *exec.Cmd
